@@ -326,6 +326,11 @@ def main(tier, seed):
             if p.returncode != 0:
                 ck.failing_input('repository API walk crashed (rc=%d)' % p.returncode, dict(gir=open(gir).read()), detail=p.stderr[-500:])
                 continue
+            exp, both = girgen.both_dimensions(exp, got)
+            exp, got = sort_attrs(exp), sort_attrs(got)
+            if both:
+                ck.failing_input('an array with a length parameter and a fixed size: the API reports no fixed size', dict(gir=open(gir).read()),
+                                 detail=both[:3], fid='C09-K1-array-with-length-and-fixed-size')
             d = first_diff(exp, got)
             if d:
                 ck.failing_input('API reports something else than the compiled GIR says', dict(gir=open(gir).read()),
@@ -344,6 +349,11 @@ def main(tier, seed):
                 continue
             # sibling order is g-ir-generate's own; parameter order is kept by the index
             a, bb = sorted(red_model(ns)), sorted(red_xml(root))
+            a, both2 = girgen.both_dimensions(a, bb)
+            a = sorted(a)
+            if both2 and not both:
+                ck.failing_input('an array with a length parameter and a fixed size: g-ir-generate writes no fixed size', dict(gir=open(gir).read()),
+                                 detail=both2[:3], fid='C09-K1-array-with-length-and-fixed-size')
             d = first_diff(a, bb)
             if d:
                 fid = None
